@@ -866,11 +866,11 @@ PROPERTY = Property(
         "skewed shape evaluated on both sides of theta = 0, inverted / scaled axis; distinct = distinct case digest."
     ),
     subs=[
-        Sub("doas_noirf", prop=prop_doas_noirf, strategy=doas_noirf_cases, budget={"quick": 300, "thorough": 12000}),
-        Sub("doas_irf", prop=prop_osc_irf, strategy=doas_irf_cases, budget={"quick": 320, "thorough": 16000}),
-        Sub("pfid", prop=prop_osc_irf, strategy=pfid_cases, budget={"quick": 240, "thorough": 12000}),
-        Sub("artifact", prop=prop_artifact, strategy=artifact_cases, budget={"quick": 240, "thorough": 10000}),
-        Sub("shape", prop=prop_shape, strategy=shape_cases, budget={"quick": 300, "thorough": 12000}),
+        Sub("doas_noirf", prop=prop_doas_noirf, strategy=doas_noirf_cases, budget={"quick": 240, "thorough": 12000}),
+        Sub("doas_irf", prop=prop_osc_irf, strategy=doas_irf_cases, budget={"quick": 288, "thorough": 16000}),
+        Sub("pfid", prop=prop_osc_irf, strategy=pfid_cases, budget={"quick": 224, "thorough": 12000}),
+        Sub("artifact", prop=prop_artifact, strategy=artifact_cases, budget={"quick": 208, "thorough": 10000}),
+        Sub("shape", prop=prop_shape, strategy=shape_cases, budget={"quick": 240, "thorough": 10000}),
     ],
     assumptions=[
         "mpmath (50 digits) closed forms are trusted after the start-up self-check against mpmath.quad of the defining integrals",
